@@ -207,6 +207,8 @@ NBINT_KINDS = {'int-only', 'int-only-bad-result', 'int-only-raises', 'float-inte
                'decimal', 'fraction', 'index-int-disagree', 'complex'}
 INDEX_KINDS = {'index-only', 'index-only-subclass-result', 'index-only-raises'}
 NUMBER_LONG_KINDS = NBINT_KINDS | {'str-subclass', 'bytes-subclass', 'bytearray'}
+# build configurations in which CYTHON_USE_TYPE_SLOTS is 0 (the limited API implies it): __Pyx_PyNumber_Long calls PyNumber_Long()
+NUMBER_LONG_CONFIGS = ('type-slots-off', 'limited-api')
 
 
 def outcome(o):
@@ -225,11 +227,12 @@ def classify(f, kind, family, cfg, exp, got, value=None):
     if family == 'PyLong_As' and kind in INDEX_KINDS and g == 'TypeError' and e != 'TypeError':
         # objects that are integers only through __index__ are refused (__index__ is never called)
         return 'cint-rejects-index-only:%s:%s->%s' % (kind, e, g)
-    if family == 'PyLong_As' and 'type-slots-off' not in cfg and kind in NBINT_KINDS and (
+    number_long = cfg in NUMBER_LONG_CONFIGS
+    if family == 'PyLong_As' and not number_long and kind in NBINT_KINDS and (
             (e == 'TypeError' and g != e) or kind == 'index-int-disagree'):
         # nb_int is consulted instead of nb_index: __int__-only objects and floats are converted
         return 'cint-from-nb_int:%s:%s->%s' % (kind, e, g)
-    if family == 'PyLong_As' and 'type-slots-off' in cfg and kind in NUMBER_LONG_KINDS and (
+    if family == 'PyLong_As' and number_long and kind in NUMBER_LONG_KINDS and (
             (e == 'TypeError' and g != e) or kind == 'index-int-disagree'):
         # the CYTHON_USE_TYPE_SLOTS=0 branch calls PyNumber_Long(): everything int() accepts is converted
         return 'cint-from-PyNumber_Long:%s:%s->%s' % (kind, e, g)
@@ -435,7 +438,7 @@ def sweep_cases(ck, group, full32=True):
         if bits <= 16:
             ranges = [(a, a + 10000) for a in range(-70000, 70000, 10000)]
         elif bits == 32:
-            if ck.quick or not full32 or k not in ('i', 'ui', 'en'):
+            if ck.quick or not full32 or k not in ('i', 'ui'):
                 for c in (lo, hi, 0, -(1 << 31), 1 << 31, 1 << 32, -(1 << 32), 1 << 30):
                     ranges.append((c - 2000, c + 2000))
             else:
@@ -447,7 +450,7 @@ def sweep_cases(ck, group, full32=True):
         for a, b in ranges:
             inr = max(0, min(b, hi + 1) - max(a, lo))
             cases.append(({'f': 'sweep_' + k, 'a': '(%d, %d)' % (a, b), 't': 'sweep/%s' % k}, (b - a) + inr))
-        nseed, per = ck.pick((4, 50000), (40, 500000))
+        nseed, per = ck.pick((4, 50000), (20, 500000))
         for _ in range(nseed):
             cases.append(({'f': 'sweepr_' + k, 'a': '(%d, %d)' % (rng.getrandbits(63) | 1, per), 't': 'sweepr/%s' % k}, per))
     return cases
@@ -500,9 +503,13 @@ def gcov_summary(d):
                     continue
                 ls = [lines[i] for i in range(fn['start_line'], fn['end_line'] + 1) if i in lines]
                 br = [b for ln in ls for b in ln.get('branches', [])]
-                out['functions'][name] = {'calls': fn.get('execution_count', 0),
-                                          'lines': '%d/%d' % (sum(1 for ln in ls if ln['count'] > 0), len(ls)),
-                                          'branches': '%d/%d' % (sum(1 for b in br if b['count'] > 0), len(br))}
+                rec = {'calls': fn.get('execution_count', 0),
+                       'lines': '%d/%d' % (sum(1 for ln in ls if ln['count'] > 0), len(ls)),
+                       'branches': '%d/%d' % (sum(1 for b in br if b['count'] > 0), len(br))}
+                # the same helper is instantiated (often unused) in several modules: keep the most exercised copy
+                if name not in out['functions'] or rec['calls'] > out['functions'][name]['calls']:
+                    out['functions'][name] = rec
+                out['source_lines_read'] = out.get('source_lines_read', 0) + (1 if src else 0)
                 seen = {}
                 for i in range(fn['start_line'], fn['end_line'] + 1):
                     if i - 1 < len(src):
@@ -510,9 +517,10 @@ def gcov_summary(d):
                         if m:
                             k = 'size==%s#%d' % (m.group(1), seen.get(m.group(1), 0))
                             seen[m.group(1)] = seen.get(m.group(1), 0) + 1
-                            hits = max([lines[j]['count'] for j in range(i + 1, i + 4) if j in lines] or [0])
+                            hits = max([lines[j]['count'] for j in range(i + 1, i + 7) if j in lines] or [0])
                             if hits:
-                                out['digit_branch_hits'].setdefault(name, {})[k] = hits
+                                dh = out['digit_branch_hits'].setdefault(name, {})
+                                dh[k] = max(dh.get(k, 0), hits)
     return out
 
 
